@@ -18,7 +18,7 @@ CHECKS = {
    "3/C03"),
  "C12": ("exploration",
    "exhaustive enumeration of the unfiltered bounded grammar classes (undefined / unproductive / unreachable / ruleless-start cases included) through the real ParseAndBuild, verdict compared with reference definedness and productivity fixpoints",
-   "Refused <=> the reference finds a symbol that is neither token nor defined, or an unproductive nonterminal; refusal must be a diagnostic (not a runtime error) and, for unproductivity, name exactly the unproductive nonterminals; every usable grammar must be processed within the fuel budget.",
+   "Refused <=> the reference finds a symbol that is neither token nor defined, or an unproductive nonterminal (the verdict must not depend on whether terminals are declared names or undeclared literals, nor on ';' terminators); refusal must be a diagnostic (not a runtime error) and, for unproductivity, name exactly the unproductive nonterminals; every usable grammar must be processed within the fuel budget.",
    "Trusted: reference fixpoints. The 2000-state limit is not exercised (no grammar of the classes comes near it).",
    "3/C12"),
  "C01": ("model_checking",
@@ -38,12 +38,12 @@ CHECKS = {
    "3/C05"),
  "C04": ("exploration",
    "exhaustive enumeration: every conflicting rule set of small classes x every precedence decoration (levels, associativities, %prec, both rule orders) compared cell by cell with the resolution prescribed by the property; every operator table (<=3 binary operators, <=3 levels, unary minus via %prec, parentheses) x every sentence up to the bound compared with a precedence-climbing reference, on yaccgo's table and on generated parsers",
-   "Cell level: all two-way conflict cells of all decorated grammars must hold the prescribed winner (higher precedence; equal: left reduces, right shifts, nonassoc errors; otherwise shift / earlier rule). Expression level: every expression groups as the declarations say. Cells the statement leaves open are only required to hold a candidate or error.",
+   "Cell level: all two-way conflict cells of all decorated grammars (rule sets of the small classes, mixfix rules with two precedence-bearing terminals, precedence families) must hold the prescribed winner (higher precedence; equal: left reduces, right shifts, nonassoc errors; otherwise shift / earlier rule). Expression level: every expression groups as the declarations say; in addition every sentence of every fully-resolved precedence grammar is parsed by yaccgo's dense AND packed table and compared (verdict, reductions) with a parser built to the reference table. Cells the statement leaves open are only required to hold a candidate or error.",
    "Trusted: reference conflict candidates (LR(1) merge), the transcription of the resolution rule, the precedence-climbing parser. Not judged: cells with more than two candidates, reduce/reduce where both rules carry precedence, rules whose precedence would come from a non-last terminal.",
    "3/C04"),
  "C06": ("model_checking",
    "same explicit-state exploration with an extra unknown-token input symbol; oracle: non-accepting runs end in the documented error outcome (never index error / garbage action); on conflict-free grammars the first non-viable token (Earley) is rejected unshifted after finitely many reductions; outcome class and fetch count replayed on generated parsers",
-   "All grammars x all strings up to the bound including an unknown token code: rejected means the documented channel; for LALR(1) grammars rejection happens exactly at the first token that cannot continue any sentence.",
+   "All grammars x all strings up to the bound including an unknown token code (the lexer answers 0): rejected means the documented channel; for LALR(1) grammars rejection happens exactly at the first token that cannot continue any sentence; for grammars whose conflicts are all decided by the declarations (precedence, %nonassoc) the verdict is compared with the reference table run in lockstep.",
    "Trusted: Earley viable-prefix oracle; abstract driver bound by conformance replays. Reduction loops of conflicting (e.g. cyclic) grammars are counted, not judged.",
    "3/C06"),
  "C07": ("model_checking",
@@ -68,7 +68,7 @@ CHECKS = {
    "3/C14"),
  "C13": ("exploration",
    "exhaustive enumeration of a text space (all fragment sequences up to a length bound over a 38-piece lexical alphabet, every byte prefix and every single-token edit of corpus grammar files) through the real front end on an overlay build where every loop iteration burns fuel; hangs = fuel exhaustion / spinning background goroutine / runtime deadlock, each confirmed on the native CLI",
-   "generate go, generate typescript and debug must return or stop with a diagnostic on every text of the explored space; termination is decided deterministically by fuel (10M loop iterations, >= 50x the largest terminating run), not by wall clock.",
+   "generate go, generate typescript and debug must return or stop with a diagnostic on every text of the explored space (non-ASCII fragments and three grammars with exponential LR(0) automata included); termination is decided deterministically by fuel (25 000 loop iterations per input byte, about 50x the largest terminating run), not by wall clock.",
    "Trusted: the overlay rewriter instruments every for/range loop and function entry of the repository packages; the fuel margin. Not all byte strings: the fragment alphabet, prefixes and single edits.",
    "3/C13"),
  "C16": ("exploration",
@@ -98,7 +98,7 @@ CHECKS = {
    "3/C19"),
  "C15": ("model_checking",
    "(a) exhaustive enumeration of parse histories (all sequences of <=3 parses over <=8 inputs per parser, with re-initialisation / fresh contexts, Go and TypeScript) compared with the solo (model) result; (b) stateless model checking of the real generated -o parsers under a hand-written cooperative scheduler: 2-3 contexts in separate goroutines, scheduling points at every lexer fetch and semantic action, all schedules with <=2 preemptions (all interleavings for short pairs), deviating schedules replayed; (c) separate free-running -race pass of the same bodies on 8 goroutines",
-   "Every parse in every history and every schedule must give exactly the observation of that parse alone (verdict, reductions with fetch counts, value); no data race between contexts.",
+   "Every parse in every history and every schedule must give exactly the observation of that parse alone (verdict, reductions with fetch counts, value), also with actions that do not always assign $$ and on one global parser / one -o context re-initialised 12 000 times; no data race between contexts.",
    "Scheduling points = the places where user code runs inside Parser(); unsynchronised accesses elsewhere are the race pass's job (cooperative hand-offs are happens-before edges). Bounds: 3 parses per history, 8 inputs of <=4 tokens, 2 preemptions, 3 contexts.",
    "3/C15"),
 }
